@@ -12,6 +12,7 @@ import struct
 from harness.common import sx, wire
 
 BUILTINS_MODULES = ("__builtin__", "__builtins__", "builtins")
+_VAR = __import__("re").compile(r"^_var(\d+)$")
 CONST_OPS = {"INT", "BININT", "BININT1", "BININT2", "LONG", "LONG1", "LONG4", "STRING", "BINSTRING",
              "SHORT_BINSTRING", "BINBYTES", "SHORT_BINBYTES", "BINBYTES8", "UNICODE",
              "SHORT_BINUNICODE", "BINUNICODE", "BINUNICODE8", "BINFLOAT", "NONE", "NEWTRUE", "NEWFALSE"}
@@ -115,6 +116,15 @@ class World:
     def __init__(self):
         self.events = []
         self.nobj = 0
+        self.globals = {}
+        self.flags = set()
+
+    def global_stub(self, module, name):
+        """one stand-in per (module, name): resolving a global twice yields the same object"""
+        key = ("builtins" if module in BUILTINS_MODULES else module, name)
+        if key not in self.globals:
+            self.globals[key] = Stub(self, "g", (module, name))
+        return self.globals[key]
 
     def fresh(self):
         k = self.nobj
@@ -180,7 +190,7 @@ class RefUnpickler(pickle._Unpickler):
 
     def find_class(self, module, name):
         self.world.events.append(("resolve", module, name))
-        return Stub(self.world, "g", (module, name))
+        return self.world.global_stub(module, name)
 
     def persistent_load(self, pid):
         k = self.world.fresh()
@@ -195,7 +205,11 @@ class RefUnpickler(pickle._Unpickler):
 
 
 def _wrap(fn):
+    is_build = fn is pickle._Unpickler.load_build
+
     def handler(self):
+        if is_build and len(self.stack) >= 2 and not isinstance(self.stack[-2], Stub):
+            self.world.flags.add("build-on-plain-value")
         fn(self)
         self.trace.append(self._shape())
     return handler
@@ -245,24 +259,16 @@ class _Builtins(dict):
     def __init__(self, world):
         super().__init__()
         self.world = world
-        for name in ("frozenset", "set", "dict", "list", "tuple", "None", "True", "False",
-                     "__build_class__", "__name__"):
-            if hasattr(builtins, name):
-                self[name] = getattr(builtins, name)
-        self["__import__"] = self._import
+        self["__verif_frozenset__"] = frozenset
+        self["__verif_import__"] = self._import
 
-    def _import(self, name, globals=None, locals=None, fromlist=(), level=0):
-        world = self.world
-
-        class _Mod:
-            def __getattr__(_self, attr):
-                world.events.append(("resolve", name, attr))
-                return Stub(world, "g", (name, attr))
-        return _Mod()
+    def _import(self, name, attr):
+        self.world.events.append(("resolve", name, attr))
+        return self.world.global_stub(name, attr)
 
     def __missing__(self, key):
         # implicit builtins resolve to stand-ins; they are NOT logged as a resolve by themselves
-        return Stub(self.world, "g", ("builtins", key))
+        return self.world.global_stub("builtins", key)
 
 
 def exec_decompiled(source: str, result_name="result"):
@@ -270,7 +276,35 @@ def exec_decompiled(source: str, result_name="result"):
     w = World()
     g = {"__builtins__": _Builtins(w), "UNPICKLER": PersLoader(w)}
     try:
-        code = compile(source, "<decompiled>", "exec")
+        tree = ast.parse(source)
+        # `from m import n` -> n = __verif_import__('m', 'n'), so that every other name (including
+        # __import__) can be an inert stand-in
+        new_body = []
+        for st in tree.body:
+            if isinstance(st, ast.ImportFrom):
+                for al in st.names:
+                    new_body.append(ast.Assign(
+                        [ast.Name(al.asname or al.name, ast.Store())],
+                        ast.Call(ast.Name("__verif_import__", ast.Load()),
+                                 [ast.Constant(st.module), ast.Constant(al.name)], [])))
+            elif isinstance(st, ast.Import):
+                raise ValueError("plain import statement in decompiled program")
+            else:
+                new_body.append(st)
+        tree.body = new_body
+        # the FROZENSET opcode decompiles to frozenset({...}) (a set display argument, never the
+        # direct value of a `_var<i> = ...` statement): that one builds a real frozenset; any other
+        # use of the name frozenset is the stand-in for the global the VM resolved
+        direct = {id(st.value) for st in new_body
+                  if isinstance(st, ast.Assign) and isinstance(st.targets[0], ast.Name)
+                  and _VAR.match(st.targets[0].id)}
+        for node in ast.walk(tree):
+            if isinstance(node, ast.Call) and isinstance(node.func, ast.Name) and node.func.id == "frozenset" \
+                    and len(node.args) == 1 and isinstance(node.args[0], ast.Set) and not node.keywords \
+                    and id(node) not in direct:
+                node.func = ast.Name("__verif_frozenset__", ast.Load())
+        ast.fix_missing_locations(tree)
+        code = compile(tree, "<decompiled>", "exec")
         exec(code, g)
     except RecursionError as e:
         return None, w, f"RecursionError"
@@ -281,21 +315,24 @@ def exec_decompiled(source: str, result_name="result"):
 
 # ---------------------------------------------------------------- canonical values and events
 class Canon:
-    """Canonical S-expression of a value graph built from stand-ins and plain data; mutable
-    containers and opaque objects are numbered by first visit so sharing is visible."""
+    """Canonical S-expression of a value built from stand-ins and plain data.  Containers are
+    compared structurally (by unfolding; a container met again on the current path prints as
+    (cycle)); opaque call results are numbered through objmap so that identity of stand-in objects
+    IS compared."""
 
     def __init__(self, objmap=None):
-        self.ids = {}
         self.objmap = objmap if objmap is not None else {}
 
     def obj(self, s):
         if s._kind == "g":
             m, n = s._id
+            if m in BUILTINS_MODULES:
+                m = "builtins"
             return f"(global {m} {n})"
         return f"(obj {self.objmap.setdefault(s._id, len(self.objmap))})"
 
-    def val(self, v, depth=0):
-        if depth > 200:
+    def val(self, v, path=()):
+        if len(path) > 60:
             return "(deep)"
         if isinstance(v, Stub):
             return self.obj(v)
@@ -303,21 +340,21 @@ class Canon:
             return repr(v)
         if isinstance(v, float):
             return "f" + struct.pack(">d", v).hex()
+        if isinstance(v, (tuple, frozenset, list, set, dict)):
+            if id(v) in path:
+                return "(cycle)"
+            path = path + (id(v),)
         if isinstance(v, tuple):
-            return "(tuple " + " ".join(self.val(x, depth + 1) for x in v) + ")"
+            return "(tuple " + " ".join(self.val(x, path) for x in v) + ")"
         if isinstance(v, frozenset):
-            return "(frozenset " + " ".join(sorted(self.val(x, depth + 1) for x in v)) + ")"
-        if isinstance(v, (list, set, dict)):
-            key = id(v)
-            if key in self.ids:
-                return f"(ref {self.ids[key]})"
-            self.ids[key] = n = len(self.ids)
-            if isinstance(v, list):
-                return f"(list#{n} " + " ".join(self.val(x, depth + 1) for x in v) + ")"
-            if isinstance(v, set):
-                return f"(set#{n} " + " ".join(sorted(self.val(x, depth + 1) for x in v)) + ")"
-            return f"(dict#{n} " + " ".join(
-                "(" + self.val(k, depth + 1) + " " + self.val(x, depth + 1) + ")" for k, x in v.items()) + ")"
+            return "(frozenset " + " ".join(sorted(self.val(x, path) for x in v)) + ")"
+        if isinstance(v, list):
+            return "(list " + " ".join(self.val(x, path) for x in v) + ")"
+        if isinstance(v, set):
+            return "(set " + " ".join(sorted(self.val(x, path) for x in v)) + ")"
+        if isinstance(v, dict):
+            return "(dict " + " ".join(
+                "(" + self.val(k, path) + " " + self.val(x, path) + ")" for k, x in v.items()) + ")"
         return f"(other {type(v).__name__})"
 
 
@@ -347,3 +384,159 @@ def canon_events(world, canon=None, kinds=("resolve", "call", "persload", "setst
         elif ev[0] == "setitem":
             out.append("setitem " + c.val(ev[1]) + " " + c.val(ev[2]) + " " + c.val(ev[3]))
     return out, c
+
+
+# ---------------------------------------------------------------- renderers matching coq/model/ShowVM.v
+DEPTH = 14
+
+
+def _w(s):
+    if not isinstance(s, (str, bytes)):
+        return "(?nonstr)"
+    return wire(s)
+
+
+def render_const(v):
+    if v is None:
+        return "none"
+    if isinstance(v, bool):
+        return "(bool %s)" % ("T" if v else "F")
+    if isinstance(v, int):
+        return "(int %d)" % v
+    if isinstance(v, float):
+        return "(float h%s)" % struct.pack(">d", v).hex()
+    if isinstance(v, str):
+        return "(str %s)" % _w(v)
+    if isinstance(v, (bytes, bytearray)):
+        return "(bytes h%s)" % bytes(v).hex()
+    return "(?const %s)" % type(v).__name__
+
+
+def render_expr(e, fuel=DEPTH):
+    if fuel == 0:
+        return "(deep)"
+    n = fuel - 1
+    go = lambda x: render_expr(x, n)  # noqa: E731
+    if isinstance(e, ast.Constant):
+        return render_const(e.value)
+    if isinstance(e, ast.Name):
+        m = _VAR.match(e.id)
+        if m:
+            return "(var %d)" % int(m.group(1))
+        return "(name %s)" % _w(e.id)
+    if isinstance(e, ast.Tuple):
+        return "(" + " ".join(["tuple"] + [go(x) for x in e.elts]) + ")"
+    if isinstance(e, ast.List):
+        return "(" + " ".join(["list"] + [go(x) for x in e.elts]) + ")"
+    if isinstance(e, ast.Set):
+        return "(" + " ".join(["set"] + [go(x) for x in e.elts]) + ")"
+    if isinstance(e, ast.Dict):
+        return "(" + " ".join(["dict"] + ["(%s %s)" % (go(k), go(v)) for k, v in zip(e.keys, e.values)]) + ")"
+    if isinstance(e, ast.Call):
+        kw = "-"
+        if e.keywords:
+            if len(e.keywords) == 1 and isinstance(e.keywords[0], ast.keyword) and e.keywords[0].arg is None:
+                kw = go(e.keywords[0].value)
+            else:
+                kw = "(?keywords)"
+        return "(call %s (%s) %s)" % (go(e.func), " ".join(go(a) for a in e.args), kw)
+    if isinstance(e, ast.Starred):
+        return "(star %s)" % go(e.value)
+    if isinstance(e, ast.Attribute):
+        return "(attr %s %s)" % (go(e.value), _w(e.attr))
+    return "(?expr %s)" % type(e).__name__
+
+
+def render_stmt(s):
+    if isinstance(s, ast.ImportFrom) and len(s.names) == 1:
+        return "(import %s %s)" % (_w(s.module), _w(s.names[0].name))
+    if isinstance(s, ast.Assign) and len(s.targets) == 1:
+        t = s.targets[0]
+        if isinstance(t, ast.Name):
+            m = _VAR.match(t.id)
+            if m:
+                return "(assign %d %s)" % (int(m.group(1)), render_expr(s.value))
+            if t.id.startswith("result"):
+                return "(result %s)" % render_expr(s.value)
+        if isinstance(t, ast.Subscript) and isinstance(t.value, ast.Name) and _VAR.match(t.value.id):
+            return "(setitem %d %s %s)" % (int(_VAR.match(t.value.id).group(1)), render_expr(t.slice),
+                                           render_expr(s.value))
+    if isinstance(s, ast.Expr):
+        return "(expr %s)" % render_expr(s.value)
+    return "(?stmt %s)" % type(s).__name__
+
+
+def render_body(module):
+    return " ".join(render_stmt(s) for s in module.body)
+
+
+def render_val(v, fuel=DEPTH):
+    if fuel == 0:
+        return "(deep)"
+    n = fuel - 1
+    go = lambda x: render_val(x, n)  # noqa: E731
+    if isinstance(v, Stub):
+        if v._kind == "g":
+            m, a = v._id
+            if m in BUILTINS_MODULES:
+                m = "builtins"
+            return "(global %s %s)" % (_w(m), _w(a))
+        return "(obj %d)" % v._id
+    if isinstance(v, tuple):
+        return "(" + " ".join(["tuple"] + [go(x) for x in v]) + ")"
+    if isinstance(v, list):
+        return "(" + " ".join(["list"] + [go(x) for x in v]) + ")"
+    if isinstance(v, set):
+        return "(" + " ".join(["set"] + sorted({go(x) for x in v})) + ")"
+    if isinstance(v, frozenset):
+        return "(" + " ".join(["frozenset"] + sorted({go(x) for x in v})) + ")"
+    if isinstance(v, dict):
+        return "(" + " ".join(["dict"] + ["(%s %s)" % (go(k), go(x)) for k, x in v.items()]) + ")"
+    return render_const(v)
+
+
+def render_events(world):
+    out = []
+    for ev in world.events:
+        if ev[0] == "resolve":
+            out.append("(resolve %s %s)" % (_w(ev[1]), _w(ev[2])))
+        elif ev[0] == "call":
+            _, f, args, kw, k = ev
+            out.append("(call %s (%s) %s %d)" % (render_val(f), " ".join(render_val(a) for a in args),
+                                                 render_val(kw) if kw is not None else "-", k))
+        elif ev[0] == "persload":
+            out.append("(persload %s %d)" % (render_val(ev[1]), ev[2]))
+        elif ev[0] == "setstate":
+            out.append("(setstate %s %s)" % (render_val(ev[1]), render_val(ev[2])))
+        elif ev[0] == "setitem":
+            out.append("(setitem %s %s %s)" % (render_val(ev[1]), render_val(ev[2]), render_val(ev[3])))
+    return " ".join(out)
+
+
+def real_fk_run(data):
+    """'OK <body>' / 'ERR' for the real decompiler"""
+    from fickling.fickle import Interpreter, Pickled
+    try:
+        p = Pickled.load(data)
+    except Exception:
+        return "PARSE-ERR"
+    try:
+        mod = Interpreter(p).to_ast()
+    except RecursionError:
+        return "ERR"
+    except Exception:
+        return "ERR"
+    try:
+        return "OK " + render_body(mod)
+    except Exception:       # garbage ASTs (marks or AST nodes used as names): outside the model
+        return "RENDER-ERR"
+
+
+def real_vm_run(data):
+    tr, val, w, ok = vm_trace(data)
+    if not ok:
+        return "ERR"
+    try:
+        return "OK " + render_val(val) + " | " + render_events(w)
+    except Exception:
+        return "RENDER-ERR"
